@@ -265,6 +265,7 @@ class Run:
         self.events = []            # per section
         self.cur = []
         self.monitor = []           # property monitors evaluated on the implementation's behaviour
+        self.c01_detail = {}
         self.max_sections = max_sections
         self.running = {}           # worker idx -> (node, pre)
         self.t = 0                  # logical clock: section counter
@@ -345,12 +346,23 @@ class Run:
             gt = op.get("get_state")
             if gt in ROOTLIKE:
                 continue
+            if o.is_permanent():
+                continue            # externally provided states of permanent objects are taken as given
             x = (objid(o), gt)
             locs = n.params.get(f"get_location_{o.long_suffix}", "").split()
-            places = [worker.id]
+            scopes = n.params.get("pool_scope", "").split()
+            places = [worker.id] if "own" in scopes else []
             for loc in locs:
                 wid, _ = loc.split(":")
-                places.append(wid or None)
+                if not wid:
+                    if "shared" in scopes:
+                        places.append(None)
+                    continue
+                srcw = next((v for v in self.workers if v.id == wid), None)
+                # another worker's pool can only be used if the scope between the two workers is enabled
+                between = "swarm" if srcw is not None and srcw.params.get("nets_gateway") == worker.params.get("nets_gateway") else "cluster"
+                if wid == worker.id or between in scopes:
+                    places.append(wid)
                 if wid:
                     # the access parameters of that worker must come along
                     src = next((v for v in self.workers if v.id == wid), None)
@@ -363,6 +375,10 @@ class Run:
                 producer = next((par for par, objs in n.setup_nodes.items() if o in objs), None)
                 attempted = producer is not None and producer.bridged_form in self.attempted_failed
                 if not attempted:
+                    # who holds the state right now, and which pool scope separates that worker from this one
+                    holders = [(v.id, "swarm" if v.params.get("nets_gateway") == worker.params.get("nets_gateway") else "cluster")
+                               for v in self.workers if v.id != worker.id and x in self.store.get(v.id, set())]
+                    self.c01_detail[(w, ni, x)] = holders
                     self.monitor.append(("C01", f"state {x} available in none of {places}", w, ni))
 
     def monitor_unset(self, w, ni, sts):
